@@ -40,7 +40,8 @@ int *vf_errno_location(void) { return &vf_errno_a[vf_tid]; }
 
 #ifdef VF_SEQ
 uint64_t vf_in_last; /* trace marker: every harness input, in consumption order */
-static inline uint64_t vf_log_in(uint64_t v) { vf_in_last = v; return v; }
+/* drawing an input is also a visible operation: the native replay hands out inputs in schedule order */
+static inline uint64_t vf_log_in(uint64_t v) { vf_vis_t = vf_tid; vf_in_last = v; return v; }
 #else
 static inline uint64_t vf_log_in(uint64_t v) {
 #ifndef VF_NO_INLOG
